@@ -1,9 +1,10 @@
 import ScriggoV.Model.Faults
 import ScriggoV.Lemmas.URLState
 import ScriggoV.Lemmas.RegStack
+import ScriggoV.Model.CallableValue
 /-! C05 — running compiled code never panics into the host.
 
-Property theorems only. Three parts:
+Property theorems only. Four parts (the fourth: function values stored as Go values, at the end):
 
 * **classification** (`Gen/ConvertPanic.lean`, regenerated from `errors.go:convertPanic` and
   `vm.go:VM.Run`; `Model/Faults.lean`, hand-written): no fault that an operation can raise is
@@ -250,5 +251,88 @@ example : swapRegs [0, 1, 2, 3, 4, 5, 6, 7, 8] 1 4 2 = .ok (3, 1, [0, 1, 5, 6, 2
 
 /-- OpTailCall is modelled without its `tailed` frame because nothing emits it -/
 theorem tailCall_not_emitted : Gen.GrowthGuards.tailCallEmitters = 0 := rfl
+
+/-! ## 4. function values as Go values
+
+A function value that leaves the registers — captured by a closure, kept in a package-level
+variable, in a composite value, an interface or a channel, passed to native code — is converted by
+`callable.Value`, and `reflect.Value.Set` panics in the host unless the converted value has the
+static type of the location, which is the type the checker computed with `removeEnvArg`
+(`Model/CallableValue.lean`; what `callable.Value` does, the store sites and the reads of
+`NativeFunction.function` are regenerated: `Gen/CallableValue.lean`). -/
+section FunctionValues
+open ScriggoV.CallableValue ScriggoV.Gen.CallableValue
+
+/-- **C05, function values.** `callable.Value` returns, for every callable, a value of the static
+type of the expression — so that no store of a function value can make `reflect.Value.Set` panic —
+exactly when both its branches for Go functions adapt the function to the type without the
+environment parameter. -/
+theorem callable_value_storable_iff (cv cn : Conv) :
+    (∀ c, storable cv cn c = true) ↔ (cv = .adapted ∧ cn = .adapted) := by
+  constructor
+  · intro h
+    have h1 := h (.value [.env])
+    have h2 := h (.native [.env] false)
+    cases cv <;> cases cn <;> simp_all [storable, valueType, visible, adapt, removeEnvArg]
+  · rintro ⟨rfl, rfl⟩ c
+    cases c <;> simp [storable, valueType, visible, adapt]
+
+/-- whatever the two branches do, a callable without an environment parameter (Scriggo functions,
+macros, plain native functions and methods) is handed out with its static type -/
+theorem callable_value_storable_partial (cv cn : Conv) (c : Callable) (h : hasEnv c = false) :
+    storable cv cn c = true := by
+  cases c <;> cases cv <;> cases cn <;> simp_all [storable, valueType, visible, adapt, hasEnv]
+
+/-- … and with a branch that hands out the Go function as it is, every native function with an
+environment parameter is refused by `Set` -/
+theorem env_native_not_storable_raw (cv : Conv) (ins : List Ty) (r : Bool)
+    (h : hasEnv (.native ins r) = true) : storable cv .raw (.native ins r) = false := by
+  simp_all [storable, valueType, visible, adapt, hasEnv]
+  intro h2; exact h h2.symm
+
+theorem env_method_value_not_storable_raw (cn : Conv) (ins : List Ty)
+    (h : hasEnv (.value ins) = true) : storable .raw cn (.value ins) = false := by
+  simp_all [storable, valueType, visible, adapt, hasEnv]
+  intro h2; exact h h2.symm
+
+-- non-vacuity: func(native.Env, string) int as a value; a method expression T.M with
+-- func (T) M(native.Env); a bound method value; a Scriggo function
+example : storable .raw .raw (.native [.env, .other 0] false) = false := by decide
+example : storable .raw .raw (.native [.other 0, .env] true) = false := by decide
+example : storable .raw .adapted (.value [.env]) = false := by decide
+example : storable .adapted .adapted (.native [.other 0, .env, .other 1] true) = true := by decide
+example : hasEnv (.scriggo [.other 0]) = false ∧ hasEnv (.native [.other 0, .env] false) = false := by decide
+
+/-- the full statement about the code as it is: every callable is handed out with its static
+type, every switch over reflect.Kind that stores general registers converts function values with
+`callable.Value`, and nothing else reads `NativeFunction.function` -/
+def FuncValuesWellTyped : Prop :=
+  (∀ c, codeStorable c = true) ∧ sitesConvert storeSites = true ∧ rawFunctionReads = 0
+
+/-- the full statement, decided on the regenerated facts (the driver reports which side holds,
+the harness ties it to what the real code does with the family "callables as first-class
+values"; today it is false: fixes/C05-native-env-func-as-value.NOT-APPLIED.md,
+fixes/C05-append-func-value.NOT-APPLIED.md) -/
+theorem funcValues_wellTyped_iff :
+    FuncValuesWellTyped ↔
+      (valueConv = .adapted ∧ nativeConv = .adapted ∧ sitesConvert storeSites = true ∧ rawFunctionReads = 0) := by
+  unfold FuncValuesWellTyped codeStorable
+  rw [callable_value_storable_iff]
+  constructor
+  · rintro ⟨⟨a, b⟩, c, d⟩; exact ⟨a, b, c, d⟩
+  · rintro ⟨a, b, c, d⟩; exact ⟨⟨a, b⟩, c, d⟩
+
+instance : Decidable FuncValuesWellTyped := decidable_of_iff _ funcValues_wellTyped_iff.symm
+
+/-- what holds of the code whatever `callable.Value` does with Go functions: callables without
+an environment parameter are handed out with their static type (the missing part: natives with an
+environment parameter, and the store sites — see `funcValues_wellTyped_iff`) -/
+theorem funcValues_wellTyped_partial (c : Callable) (h : hasEnv c = false) : codeStorable c = true :=
+  callable_value_storable_partial _ _ c h
+
+/-- `callable.Value` is the only place that turns a native function into a Go value -/
+theorem single_conversion_point : rawFunctionReads = 0 := rfl
+
+end FunctionValues
 
 end ScriggoV.C05
